@@ -540,20 +540,6 @@ def run(chk, replay=None):
             k, v = kv.rsplit("=", 1)
             features[k] = features.get(k, 0) + int(v)
 
-    def member_name(rf):
-        """'18.0/19.1' -> 'summary<i_mep>::az … analyzer<i_mep>::group_stat_'"""
-        if table is None or "." not in rf:
-            return rf
-        out = []
-        for part in rf.split("/"):
-            try:
-                r, f = (int(x) for x in part.split("."))
-                rec = table["records"][r]
-                out.append(rec["name"] + "::" + rec["fields"][f])
-            except (ValueError, IndexError):
-                out.append(part)
-        return out[0] if len(out) == 2 and out[0] == out[1] else " -> ".join(out)
-
     def compare(reqs, lines, cpp_ans, mod_ans):
         for g, (typ, kind, ts, hx, src, _c) in enumerate(reqs):
             ca = cpp_ans[g] or "skipped"
@@ -572,7 +558,7 @@ def run(chk, replay=None):
             where = ""
             if " ## " in ca:
                 ca, where = ca.split(" ## ", 1)
-                where = member_name(where.strip())
+                where = where.strip()
             c = ca.split()
             verdict, same, after = c[0], c[1], " ".join(c[2:])
             chk.count("cpp:" + verdict)
